@@ -406,12 +406,14 @@ func runCheck(prop, tier string) int {
 		var sample []Unit
 		var sampleIdx []int
 		for i := 0; i < len(units); i += step {
-			if results[i] != nil && !results[i].truncated && results[i].paths <= 400 {
+			if results[i] != nil && !results[i].truncated && results[i].paths <= 60 {
 				sample = append(sample, units[i])
 				sampleIdx = append(sampleIdx, i)
 			}
 		}
-		res2, _, _, _, _ := runUnits(sh, spec, sample, secondSolver, timeoutMs, maxSteps, maxPaths, time.Time{})
+		// the comparison is a self-test of the solver layer, bounded in time: units not started within
+		// 10 minutes are simply not compared
+		res2, _, _, _, _ := runUnits(sh, spec, sample, secondSolver, timeoutMs, maxSteps, maxPaths, time.Now().Add(10*time.Minute))
 		for k, r2 := range res2 {
 			r1 := results[sampleIdx[k]]
 			if r2 == nil || r1 == nil {
